@@ -35,6 +35,17 @@ def _violated(out, obname, known_ids=()):
     return False, None, None
 
 
+def _too_large(values, bound=1e8):
+    for v in values.values():
+        try:
+            f = float(Fraction(v)) if isinstance(v, str) else float(v)
+        except Exception:
+            continue
+        if abs(f) >= bound:
+            return True
+    return False
+
+
 def _perturb(values, rng, k):
     sig = [0.0, 1e-9, 1e-6, 1e-3, 1e-2, 1e-1, 0.5, 1.0][k % 8]
     out = {}
@@ -123,6 +134,8 @@ def main():
                 found = dict(values=job['values'], detail='symbolic counterexample under stub', fid=None, how='model')
             for k in range(n_search + 1):
                 vals = job['values'] if k == 0 else _perturb(job['values'], rng, k)
+                if _too_large(vals):
+                    continue              # float64 runs at magnitudes >= 1e8 confirm cancellation noise, not behaviour
                 out = run_unit_float(u, vals, jit=jit, unpatched=bool(job.get('unpatched')), rng=random.Random(0) if job.get('unpatched') else None)
                 if out['outcome'] in ('assumption-failed', 'engine'):
                     continue
